@@ -80,6 +80,79 @@ def _never_none_here(par, st, top, is_subject) -> bool:
     return False
 
 
+def _override_sites(fl, v, fn, roots, names):
+    """[(attribute, value expr, node, what)]: the attribute overrides a copy method hands to the copy — keywords of the copy calls made on
+    the source, and the entries of the mappings it forwards (its own **kwargs, dicts handed to kwargs.update(..) / **mapping: dict
+    displays and dict(..) calls followed through locals, expanded-helper results and record fields, plus what is stored into them)."""
+    kw = fn.node.args.kwarg.arg if fn.node.args.kwarg else None
+    sites = []  # (attribute, value expr, node, what)
+    label = f"**{kw}" if kw else "**<overrides>"
+    seen_dicts: set = set()
+
+    def entries(e, depth=0, fl=fl, v=v, sites=sites, seen_dicts=seen_dicts, label=label):
+        """the (attribute, value) pairs a mapping expression carries: the entries of the dict displays it may be (locals and record
+        fields followed), plus what is stored into those very dict objects elsewhere (d[k] = v, d.update(..), d.setdefault(k, v))"""
+        if depth > 5:
+            return
+        for o in fl.origins(e):
+            if id(o) in seen_dicts:
+                continue
+            seen_dicts.add(id(o))
+            if isinstance(o, ast.Dict):
+                for key, val in zip(o.keys, o.values):
+                    if key is None:
+                        entries(val, depth + 1)
+                    elif isinstance(key, ast.Constant) and key.value in names:
+                        sites.append((key.value, val, o, f"{label}[{key.value!r}]"))
+            elif isinstance(o, ast.Call) and isinstance(o.func, ast.Name) and o.func.id == "dict":
+                for k in o.keywords:
+                    if k.arg in names:
+                        sites.append((k.arg, k.value, o, f"{label}[{k.arg!r}]"))
+                    elif k.arg is None:
+                        entries(k.value, depth + 1)
+                for a in o.args:
+                    entries(a, depth + 1)
+            elif isinstance(o, ast.IfExp) or isinstance(o, ast.BoolOp):
+                continue
+            else:
+                continue
+            stores_into(lambda x, o=o: any(y is o for y in fl.origins(x)), depth + 1)
+
+    def stores_into(is_it, depth=0, fl=fl, v=v, sites=sites, label=label):
+        for n in ast.walk(v.node):
+            if isinstance(n, ast.Assign):
+                for t in n.targets:
+                    if isinstance(t, ast.Subscript) and isinstance(t.slice, ast.Constant) and t.slice.value in names and is_it(t.value):
+                        sites.append((t.slice.value, n.value, n, f"{label}[{t.slice.value!r}]"))
+            elif isinstance(n, ast.Call) and isinstance(n.func, ast.Attribute) and is_it(n.func.value):
+                if n.func.attr == "update":
+                    for k in n.keywords:
+                        if k.arg in names:
+                            sites.append((k.arg, k.value, n, f"{label}[{k.arg!r}]"))
+                        elif k.arg is None:
+                            entries(k.value, depth + 1)
+                    for a in n.args:
+                        entries(a, depth + 1)
+                elif n.func.attr == "setdefault" and len(n.args) == 2 and isinstance(n.args[0], ast.Constant) and n.args[0].value in names:
+                    sites.append((n.args[0].value, n.args[1], n, f"{label}[{n.args[0].value!r}]"))
+
+    for n in ast.walk(v.node):
+        if not isinstance(n, ast.Call):
+            continue
+        nm = call_name(n)
+        if nm in COPY_CALLS:
+            subject = n.func.value if isinstance(n.func, ast.Attribute) and nm != "copy_to_parent" else (n.args[0] if n.args else None)
+            if subject is not None and (_is_super(subject) or from_source(fl, subject, roots) is not None):
+                for k in n.keywords:
+                    if k.arg in names:
+                        sites.append((k.arg, k.value, n, f"{nm}(.., {k.arg}=..)"))
+                    elif k.arg is None and not (kw is not None and fl.is_param(k.value, kw) and isinstance(k.value, ast.Name) and k.value.id == kw):
+                        entries(k.value)  # **<a mapping built here> (the function's own **kwargs is handled below)
+    if kw is not None:
+        stores_into(lambda x: fl.is_param(x, kw))
+    return sites
+
+
 def rule_override(ctx, _flow) -> RuleResult:
     res = RuleResult(
         "C12.OVERRIDE",
@@ -93,71 +166,7 @@ def rule_override(ctx, _flow) -> RuleResult:
     for fn, roots in copy_functions(ctx):
         v, fl = _flow(ctx, fn)
         kw = fn.node.args.kwarg.arg if fn.node.args.kwarg else None
-        sites = []  # (attribute, value expr, node, what)
-        label = f"**{kw}" if kw else "**<overrides>"
-        seen_dicts: set = set()
-
-        def entries(e, depth=0, fl=fl, v=v, sites=sites, seen_dicts=seen_dicts, label=label):
-            """the (attribute, value) pairs a mapping expression carries: the entries of the dict displays it may be (locals and record
-            fields followed), plus what is stored into those very dict objects elsewhere (d[k] = v, d.update(..), d.setdefault(k, v))"""
-            if depth > 5:
-                return
-            for o in fl.origins(e):
-                if id(o) in seen_dicts:
-                    continue
-                seen_dicts.add(id(o))
-                if isinstance(o, ast.Dict):
-                    for key, val in zip(o.keys, o.values):
-                        if key is None:
-                            entries(val, depth + 1)
-                        elif isinstance(key, ast.Constant) and key.value in names:
-                            sites.append((key.value, val, o, f"{label}[{key.value!r}]"))
-                elif isinstance(o, ast.Call) and isinstance(o.func, ast.Name) and o.func.id == "dict":
-                    for k in o.keywords:
-                        if k.arg in names:
-                            sites.append((k.arg, k.value, o, f"{label}[{k.arg!r}]"))
-                        elif k.arg is None:
-                            entries(k.value, depth + 1)
-                    for a in o.args:
-                        entries(a, depth + 1)
-                elif isinstance(o, ast.IfExp) or isinstance(o, ast.BoolOp):
-                    continue
-                else:
-                    continue
-                stores_into(lambda x, o=o: any(y is o for y in fl.origins(x)), depth + 1)
-
-        def stores_into(is_it, depth=0, fl=fl, v=v, sites=sites, label=label):
-            for n in ast.walk(v.node):
-                if isinstance(n, ast.Assign):
-                    for t in n.targets:
-                        if isinstance(t, ast.Subscript) and isinstance(t.slice, ast.Constant) and t.slice.value in names and is_it(t.value):
-                            sites.append((t.slice.value, n.value, n, f"{label}[{t.slice.value!r}]"))
-                elif isinstance(n, ast.Call) and isinstance(n.func, ast.Attribute) and is_it(n.func.value):
-                    if n.func.attr == "update":
-                        for k in n.keywords:
-                            if k.arg in names:
-                                sites.append((k.arg, k.value, n, f"{label}[{k.arg!r}]"))
-                            elif k.arg is None:
-                                entries(k.value, depth + 1)
-                        for a in n.args:
-                            entries(a, depth + 1)
-                    elif n.func.attr == "setdefault" and len(n.args) == 2 and isinstance(n.args[0], ast.Constant) and n.args[0].value in names:
-                        sites.append((n.args[0].value, n.args[1], n, f"{label}[{n.args[0].value!r}]"))
-
-        for n in ast.walk(v.node):
-            if not isinstance(n, ast.Call):
-                continue
-            nm = call_name(n)
-            if nm in COPY_CALLS:
-                subject = n.func.value if isinstance(n.func, ast.Attribute) and nm != "copy_to_parent" else (n.args[0] if n.args else None)
-                if subject is not None and (_is_super(subject) or from_source(fl, subject, roots) is not None):
-                    for k in n.keywords:
-                        if k.arg in names:
-                            sites.append((k.arg, k.value, n, f"{nm}(.., {k.arg}=..)"))
-                        elif k.arg is None and not (kw is not None and fl.is_param(k.value, kw) and isinstance(k.value, ast.Name) and k.value.id == kw):
-                            entries(k.value)  # **<a mapping built here> (the function's own **kwargs is handled below)
-        if kw is not None:
-            stores_into(lambda x: fl.is_param(x, kw))
+        sites = _override_sites(fl, v, fn, roots, names)
         par = parents(v.node)
         for attr, val, node, what in sites:
             consts = [o for o in fl.origins_at(val, skip_none=False) if isinstance(o, ast.Constant)]
@@ -554,3 +563,168 @@ def par_if(root, test):
             if n.body and not n.orelse:
                 return n
     return None
+
+
+# ---------------------------------------------------------------------------------------------- the plain copy
+def _plain_reachable(fl, fn_node, given=()):
+    """CFG nodes that a call with every OPTION at its default None can reach: the tests `<option> is None` / `is not None` (and their
+    and / or / not combinations) are decided while the option still holds its default; an assignment ends that knowledge."""
+    from ..kinds import tv
+
+    fl._reaching()
+    g = fl._cfg
+    a = fn_node.args
+    pos = a.posonlyargs + a.args
+    defaults = dict(zip([x.arg for x in pos][len(pos) - len(a.defaults):], a.defaults))
+    defaults.update({k.arg: d for k, d in zip(a.kwonlyargs, a.kw_defaults) if d is not None})
+    start = frozenset(n for n, d in defaults.items() if isinstance(d, ast.Constant) and d.value is None and n not in given)
+
+    def is_none(e, state):
+        return (isinstance(e, ast.Constant) and e.value is None) or (isinstance(e, ast.Name) and e.id in state)
+
+    def learned(node, state):
+        """names (and tuple positions: (name, i)) that this statement binds to None"""
+        st = node.ast
+        out = set()
+        if node.kind == "stmt" and isinstance(st, ast.Assign) and len(st.targets) == 1:
+            t, val = st.targets[0], st.value
+            if isinstance(t, ast.Name):
+                if is_none(val, state):
+                    out.add(t.id)
+                elif isinstance(val, ast.Tuple):
+                    out |= {(t.id, i) for i, e in enumerate(val.elts) if is_none(e, state)}
+                elif isinstance(val, ast.Name):
+                    out |= {(t.id, k[1]) for k in state if isinstance(k, tuple) and k[0] == val.id}
+            elif isinstance(t, ast.Tuple) and isinstance(val, ast.Name):
+                out |= {e.id for i, e in enumerate(t.elts) if isinstance(e, ast.Name) and (val.id, i) in state}
+            elif isinstance(t, ast.Tuple) and isinstance(val, ast.Tuple) and len(t.elts) == len(val.elts):
+                out |= {e.id for e, x in zip(t.elts, val.elts) if isinstance(e, ast.Name) and is_none(x, state)}
+        return out
+
+    def killed(node):
+        st = node.ast
+        names = set()
+        if node.kind == "stmt" and isinstance(st, (ast.Assign, ast.AnnAssign, ast.AugAssign)):
+            for t in (st.targets if isinstance(st, ast.Assign) else [st.target]):
+                names |= {x.id for x in ast.walk(t) if isinstance(x, ast.Name) and isinstance(x.ctx, ast.Store)}
+        elif node.kind == "fornext" and st is not None:
+            names |= {x.id for x in ast.walk(st) if isinstance(x, ast.Name)}
+        elif node.kind == "with" and st is not None:
+            names |= {x.id for it in st.items if it.optional_vars is not None for x in ast.walk(it.optional_vars) if isinstance(x, ast.Name)}
+        if st is not None and not isinstance(st, list) and node.kind in ("stmt", "test", "return", "foriter"):
+            names |= {x.target.id for x in ast.walk(st) if isinstance(x, ast.NamedExpr) and isinstance(x.target, ast.Name)}
+        return names
+
+    seen, todo = set(), [(g.entry, start)]
+    while todo:
+        node, state = todo.pop()
+        if (node, state) in seen:
+            continue
+        seen.add((node, state))
+        succ = node.succ
+        if node.kind == "test" and any(isinstance(k, str) for k in state):
+            verdict = tv(node.ast, "", {"notnone:" + n: False for n in state if isinstance(n, str)})
+            if verdict is True:
+                succ = [(m, lab) for m, lab in succ if lab != "false"]
+            elif verdict is False:
+                succ = [(m, lab) for m, lab in succ if lab != "true"]
+        dead = killed(node)
+        nxt = frozenset(k for k in state if (k if isinstance(k, str) else k[0]) not in dead) | frozenset(learned(node, state))
+        for m, _lab in succ:
+            todo.append((m, nxt))
+    return {n for n, _s in seen}, fl._rd[1]
+
+
+def rule_plain(ctx, _flow) -> RuleResult:
+    res = RuleResult(
+        "C12.PLAIN",
+        "C12",
+        "what a copy method hands from the source to the new entity by assignment (<new entity>.<attribute> = <value taken from the source>: "
+        "link data, partner ...) is handed on the PLAIN copy as well: the statement can be reached when every option of the method "
+        "(parameter with default None: mask, cell_mask ...) is left at its default — an option only restricts what is copied",
+        floor=1,
+    )
+    names = _overridable(ctx)
+    for fn, roots in copy_functions(ctx):
+        if fn.cls is None:
+            continue
+        v, fl = _flow(ctx, fn)
+        made = [c for c in ast.walk(v.node) if isinstance(c, ast.Call) and call_name(c) in COPY_CALLS]
+        if not made:
+            continue
+        sites = []
+        for st in ast.walk(v.node):
+            if isinstance(st, ast.Assign) and len(st.targets) == 1 and isinstance(st.targets[0], ast.Attribute) and st.targets[0].attr in names:
+                owner = st.targets[0].value
+                if any(any(o is c for c in made) for o in fl.origins(owner)) and from_source(fl, owner, roots) is None and from_source(fl, st.value, roots) is not None:
+                    sites.append(st)
+        if not sites:
+            continue
+        reach, where = _plain_reachable(fl, v.node)
+        for st in sites:
+            node = where.get(id(st)) or where.get(id(st.value))
+            ok = node is None or node in reach
+            res.inst(f"{fn.qualname}:{st.lineno} <new entity>.{st.targets[0].attr} handed over on the plain copy too: {ok}", nontrivial=True, ok=ok)
+            if not ok:
+                res.find(fn.cls.name, fn.name, f"the {st.targets[0].attr} of the source reaches the copy only when an option is given", f"{fn.module.relpath}:{st.lineno}",
+                         f"with every option at its default (None) the statement that hands the source's {st.targets[0].attr} to the new entity cannot be reached: a plain "
+                         f"copy() comes out without it, although a masked one has it")
+    return res
+
+
+def rule_option(ctx, _flow) -> RuleResult:
+    res = RuleResult(
+        "C12.OPTION",
+        "C12",
+        "an option of a copy method (parameter with default None) that cuts the data of the CHILDREN (it flows into a keyword of a child's "
+        "copy call) and from which the method computes a geometry override for the copy (an entry of the forwarded **kwargs) does both "
+        "when it is the ONLY option given: with the other options at their default the override is still handed over — the children's "
+        "data and the geometry of the copy are cut alike",
+        floor=1,
+    )
+    from .c12 import _is_child
+
+    names = _overridable(ctx)
+    for fn, roots in copy_functions(ctx):
+        if fn.cls is None or fn.node.args.kwarg is None:
+            continue
+        v, fl = _flow(ctx, fn)
+        kw = fn.node.args.kwarg.arg
+        a = fn.node.args
+        pos = a.posonlyargs + a.args
+        defaults = dict(zip([x.arg for x in pos][len(pos) - len(a.defaults):], a.defaults))
+        options = [n for n, d in defaults.items() if isinstance(d, ast.Constant) and d.value is None]
+        if not options:
+            continue
+
+        def depends(e, prm, depth=0, seen=None, fl=fl):
+            seen = set() if seen is None else seen
+            for x in ast.walk(e):
+                if isinstance(x, ast.Name):
+                    if x.id == prm:
+                        return True
+                    if x.id not in seen and depth < 8:
+                        seen.add(x.id)
+                        if any(depends(d, prm, depth + 1, seen) for d in fl.defs.get(x.id, [])):
+                            return True
+            return False
+
+        child_calls = [c for c in ast.walk(v.node) if isinstance(c, ast.Call) and isinstance(c.func, ast.Attribute) and call_name(c) in COPY_CALLS and _is_child(fl, c.func.value)]
+        over = [(attr, val, n) for attr, val, n, what in _override_sites(fl, v, fn, roots, names) if what.startswith("**")]
+        for prm in options:
+            cuts_children = [c for c in child_calls if any(depends(k.value, prm) for k in c.keywords)]
+            cuts_geometry = [(attr, val, n) for attr, val, n in over if depends(val, prm)]
+            if not cuts_children or not cuts_geometry:
+                continue
+            reach, where = _plain_reachable(fl, v.node, given=(prm,))
+            live = lambda n: (where.get(id(n)) is None) or where.get(id(n)) in reach  # noqa: E731
+            if not any(live(c) for c in cuts_children):
+                continue
+            ok = any(live(n) for _a, _v, n in cuts_geometry)
+            attrs = sorted({a_ for a_, _v, _n in cuts_geometry})
+            res.inst(f"{fn.qualname}: option {prm} given alone cuts the children's data and the {attrs} handed to the copy: {ok}", nontrivial=True, ok=ok)
+            if not ok:
+                res.find(fn.cls.name, fn.name, f"option {prm} given alone cuts the data of the children but not the {', '.join(attrs)} of the copy", fn.where,
+                         f"with only {prm} given (the other options None) the children are copied with the mask derived from it, while no statement that hands the "
+                         f"sub-sampled {', '.join(attrs)} to the copy can be reached: the copy keeps the full geometry with cut data")
+    return res
